@@ -2,6 +2,7 @@ import FancyModel.Lemmas.SimCompile2
 import FancyModel.Lemmas.Sim2Deleg
 import FancyModel.Lemmas.S3Glue
 import FancyModel.Spec.Stage
+import FancyModel.Lemmas.Linear
 /-!
 # The compiler emits simulating code, delegation included (engine refinement, stage S3)
 
@@ -94,7 +95,8 @@ theorem H3.single {n gix : Nat} {e : Expr} (h : H3 n e gix) : H3L n [e] gix := b
     size, no capture groups -/
 theorem sim3_run (c : Ctx) (n nS : Nat) (prog : List Insn) (lo hi : Nat) (bal cm : Bool) (br : Nat → Bool)
     (es : List Expr) (gix a : Nat) (hlen : c.len < UNSET) (h : H3L n es gix) (heasy : isHardAny br es = false)
-    (hcs : constSizeAll es = true) (hz : noBareEndZAll es = true) (hg0 : groupCountList es = 0)
+    (hcs : constSizeAll es = true) (hz : noBareEndZAll es = true)
+    (hg0 : groupCountList es = 0 ∨ linearAll es = true)
     (hc : CodeAt prog a (compileDelegates es gix)) :
     Sim2 c n nS prog lo hi bal cm (semConcat c es) a (a + (compileDelegates es gix).length) := by
   by_cases hnd : noDeleg (compileDelegates es gix) = true
@@ -107,7 +109,10 @@ theorem sim3_run (c : Ctx) (n nS : Nat) (prog : List Insn) (lo hi : Nat) (bal cm
       · simp only [he, hl, Bool.false_eq_true, ↓reduceIte, List.length_cons, List.length_nil, Nat.zero_add] at hc ⊢
         have hp := pureAll_of_not_hard br es heasy
         exact sim2_delegate_same hc.head hlen hp (numberedList_groupsIn es gix h.num) h.gn
-          (fun st hg r q hr hq => same_of_const_groupfree c n es h.ws hcs hz hp hg0 hlen st hg r q hr hq)
+          (fun st hg r q hr hq => by
+            rcases hg0 with hg0 | hlin
+            · exact same_of_const_groupfree c n es h.ws hcs hz hp hg0 hlen st hg r q hr hq
+            · exact eq_of_mem_length_le_one (linearAll_le_one c es hlin st) hr hq)
 
 /-- a run emitted by `compile_delegates` in a committing position (the trailing easy children of a
     concatenation in a non-hard context): any easy expressions, capture groups included -/
@@ -421,7 +426,12 @@ theorem sim3_visit (c : Ctx) (n nS : Nat) (br : Nat → Bool) (hlen : c.len < UN
               (compileDelegates (es.drop sp.2) (gix + groupCountList (es.take sp.2))).length) := by
           cases hard with
           | true =>
-            have hs0 : groupCountList (es.drop sp.2) = 0 := by simpa using hsuf0
+            have hs0 : groupCountList (es.drop sp.2) = 0 ∨ linearAll (es.drop sp.2) = true := by
+              rcases hsuf0 with h | h
+              · rcases h with h | h
+                · cases h
+                · exact Or.inl h
+              · exact Or.inr h
             exact sim3_run c n nS prog nsv1 nsv1 _ cm br (es.drop sp.2) _ _ hlen (hL.drop sp.2)
               (by rw [← hsp]; exact concatSplit_suffix_isHardAny br es true)
               (by rw [← hsp]; exact concatSplit_suffix_constSizeAll br es)
